@@ -20,11 +20,11 @@ import (
 )
 
 type Spec struct {
-	Path  string   `json:"path"`
-	Name  string   `json:"name"`  // "" when no name is written
-	Legal bool     `json:"legal"` // name is an identifier, not a keyword, not in the universe scope (true for "", "_", ".")
-	Decl  int      `json:"decl"`  // index of the import declaration (1-based)
-	Doc   string   `json:"doc"`   // doc comment of the declaration: all comment texts joined, white space removed
+	Path  string `json:"path"`
+	Name  string `json:"name"`  // "" when no name is written
+	Legal bool   `json:"legal"` // name is an identifier, not a keyword, not in the universe scope (true for "", "_", ".")
+	Decl  int    `json:"decl"`  // index of the import declaration (1-based)
+	Doc   string `json:"doc"`   // doc comment of the declaration: all comment texts joined, white space removed
 }
 
 type Ref struct {
